@@ -98,7 +98,9 @@ class Material:
             elif m == "epk_other": hdr["epk"] = self.otherpub
             elif m == "epk_bad":
                 e = dict(hdr.get("epk") or self.otherpub)
-                e["x"] = R.b64e(flip(R.b64d(e["x"]), 3 + v)).decode()
+                # X25519 ignores the most significant bit of the u-coordinate (RFC 7748 section 5): flipping it is the same key
+                nbits = 255 if e.get("crv") == "X25519" else len(R.b64d(e["x"])) * 8
+                e["x"] = R.b64e(flip(R.b64d(e["x"]), (3 + v) % nbits)).decode()
                 hdr["epk"] = e
             elif m == "hdr_unknown": hdr["zzz"] = 1
             recs.append((ek, hdr))
